@@ -1,6 +1,45 @@
-from . import session
+"""C08 — malformed or foreign packets are discarded without panic, effect or unbounded allocation.
+
+Session level: families `forge` (mutated copies of in-flight packets, strangers' handshake replies)
+and `zombie` (a stranger sending from a dead peer's address), trace acceptance + monitor C08.
+Payload level: the compressed payload of an Input packet is attacker-controlled, so the decoder
+part of the codec suite (C14's harness: corpus of past failures, exhaustive short byte strings,
+mutated real encodings, varint-heavy garbage, runs that fit the size cap one by one but not
+together) runs here too; a panic, a crash, an allocation beyond the bound or a decode result that
+differs from the model (whose totality and output cap are theorems: C14_total) is a C08 violation.
+"""
+import os
+from . import session, c14
+from .. import vlib as V
 
 FAMILIES = [('forge', 1.0), ('zombie', 0.5)]
 
+
+def payload_stage(ctx):
+    V.regen_consts(ctx)
+    drv_ok, _ = V.build_driver(ctx)
+    h_ok, hout = V.build_harness(ctx, ["codec"])
+    if not (drv_ok and h_ok):
+        return  # session.run reports build problems
+    runs = []
+    corpus = os.path.join(V.VERIF, "corpus", "codec.txt")
+    if os.path.exists(corpus):
+        runs.append(c14.run_codec_suite(ctx, ["replay", corpus], "payload-corpus", 1))
+    runs.append(c14.run_codec_suite(ctx, [ctx.tier], "payload", V.NCPU))
+    ctx.cov["payload_decoder_cases"] = sum(r["cases"] for r in runs)
+    for r in runs:
+        for rq, why in r["crash"][:1]:
+            ctx.violation("payload-crash", f"# decoding this Input payload killed the process ({why})\n{rq}")
+        for rq, im, md in r["panic"][:1]:
+            ctx.violation("payload-panic", f"# decoding this Input payload panicked (model: {md})\n{rq}")
+        for rq, alloc in r["alloc_over"][:1]:
+            ctx.violation("payload-alloc", f"# decoding this Input payload allocated {alloc} bytes (> bound {r['alloc_bound']})\n{rq}")
+        dec = [m for m in r["mismatch"] if m[0].startswith("dec ")]
+        for rq, im, md in dec[:1]:
+            ctx.violation("payload-decode", "# the decoder's answer for this Input payload differs from the model's "
+                          f"(the model rejects what exceeds the output cap and never over-allocates)\n{rq}\n# impl:  {im[:300]}\n# model: {md[:300]}")
+
+
 def main(ctx):
+    payload_stage(ctx)
     session.run(ctx, "C08", FAMILIES, quick_count=100, thorough_count=4000, prop_mod=session.PROP_MODS.get("C08"))
